@@ -324,7 +324,7 @@ func scenarios() []scenario {
 	}
 	// parallelism values at and below the documented minimum, from two goroutines at once
 	// (a negative value makes go-parallel panic on its WaitGroup: outside the property)
-	for _, p := range []int{1, 0} {
+	for _, p := range []int{2, 1, 0} {
 		p := p
 		out = append(out, scenario{fmt.Sprintf("image/two ConvertImageTo* calls with parallelism %d", p), par(
 			func() string { return pixString(prism.ConvertImageToRGBA(mkSrc("RGBA64"), p).Pix) },
